@@ -35,6 +35,7 @@ def run(ctx):
     c09_4(ctx)
     c09_5(ctx)
     c09_6(ctx)
+    c09_7(ctx)
     # removal / addition ids come from Coin::coin_id (amount ladder, shared with C11.1); the coin lookup walks spends with the
     # sanitiser atoms first/rest/next/check_nil (value-based nil test, shared with C01.3)
     from . import c11, c01
@@ -416,3 +417,44 @@ def c09_6(ctx):
         runs = [t for bi, n, t in b.calls() if U.flat(n).endswith("Program::run")]
         got = [str(apnf.N(strip_all(b.operand_term(t["args"][2])))) for t in runs] if runs else []
         ctx.ob(R, "additions:consensus-dialect", got == ["('empty',)"], "SpendBundle::additions runs puzzles with ClvmFlags::empty()", found=got, where=f.sp)
+
+
+def c09_7(ctx):
+    """(a) 'looking up any removed coin returns its puzzle and solution': parse_coin_spend accepts every spend full validation
+    accepts -- it takes (parent, puzzle, amount, solution) positionally, demands an atom only for the parent id, a canonical
+    amount and a nil tail, and puts no shape requirement on the puzzle (an atom is a legal puzzle): exact accepting path.
+    (b) the recovered coin spends carry the real puzzle and solution: Program::from_clvm(Allocator) is node_to_bytes(node) -- the
+    serializer's own limit, not a smaller local one, since get_coinspends_* turn a conversion failure into an empty program --
+    and Program::to_clvm is node_from_bytes of the stored bytes."""
+    R = "C09.3"
+    b = U.body(ctx, R, CC + "get_puzzle_and_solution::parse_coin_spend")
+    if b:
+        accs = []
+        for ev, ex in P.enumerate_paths(b):
+            if ex[0] == "return" and P.ret_class(ev) == "Ok":
+                accs.append(sorted((str(apnf.N(t)).split(", ('ValidationErr")[0].split(", ('ErrorCode")[0], l[1]) for t, l in P.conds(ev)))
+        cs = "coin_spend"
+        r1, r2, r3, r4 = "('rest', '%s')" % cs, "('rest', ('rest', '%s'))" % cs, "('rest', ('rest', ('rest', '%s')))" % cs, "('rest', ('rest', ('rest', ('rest', '%s'))))" % cs
+        exp = sorted([("('first', '%s')" % cs, True), ("('atom', ('first', '%s')" % cs, True), (r1, True), ("('first', %s)" % r1, True), (r2, True),
+                      ("('first', %s)" % r2, True), ("('parse_amount', ('first', %s)" % r2, True), (r3, True), ("('first', %s)" % r3, True), (r4, True),
+                      ("('check_nil', %s)" % r4, True)])
+        ctx.ob(R, "parse_coin_spend:exact", accs == [exp],
+               "parse_coin_spend accepts (parent atom, any puzzle, canonical amount, any solution) followed by nil -- and nothing narrower",
+               found=None if accs == [exp] else [sorted(set(map(str, a)) ^ set(map(str, exp)))[:3] for a in accs][:2], where=b.fn.sp)
+    R = "C09.1"
+    f = ctx.fb.fns.get("<chia_protocol::program::Program as clvm_traits::from_clvm::FromClvm<clvmr::allocator::Allocator>>::from_clvm")
+    if f is None:
+        ctx.missing(R, "program:from-node", "impl FromClvm<Allocator> for Program not found")
+    else:
+        pb = Body(f, ctx.fb)
+        ctx.touched(pb.path)
+        rows = {(ex[0], P.ret_class(ev) if ex[0] == "return" else "", str(apnf.N(P.ret_of(ev))) if ex[0] == "return" and P.ret_class(ev) == "Ok" else "")
+                for ev, ex in P.enumerate_paths(pb)}
+        exp = {("return", "Ok", "('Ok', ('Program::Program', ('Result::map_err', ('node_to_bytes', 'node'), ('closure', '{closure#0}'))))"), ("return", "Err", "")}
+        ctx.ob(R, "program:from-node", rows == exp, "Program::from_clvm(Allocator, node) = Program(node_to_bytes(node)?)", found=sorted(map(str, rows ^ exp))[:2] or None)
+    f = ctx.fb.fns.get("<chia_protocol::program::Program as clvm_traits::to_clvm::ToClvm<clvmr::allocator::Allocator>>::to_clvm")
+    if f is not None:
+        pb = Body(f, ctx.fb)
+        rows = {(ex[0], str(apnf.N(P.ret_of(ev))) if ex[0] == "return" else "") for ev, ex in P.enumerate_paths(pb)}
+        ctx.ob(R, "program:to-node", rows == {("return", "('Result::map_err', ('node_from_bytes', ('.0', 'self')), ('closure', '{closure#0}'))")},
+               "Program::to_clvm(Allocator) = node_from_bytes(self bytes)", found=sorted(map(str, rows))[:2])
